@@ -35,8 +35,10 @@ Example C10_point_to_line_nonvacuous :
   exists d c, point_to_line (V 1 1 0) (V 0 0 0) (V 1 0 0) = (d, c) /\ c = V 1 0 0 :> V3R.
 Proof. eexists; eexists; split; [reflexivity|]. veq. Qed.
 
-(** point_to_line_segment: any segment (even degenerate: over R, x/0 is some real and the clamp
-    still lands in [0,1]; the float code returns NaN there, which the harness reports) *)
+(** point_to_line_segment: stated for any segment; for the degenerate segment s = e the statement is true of the REAL-number
+    model only because x / 0 is a real number in Coq (Rinv 0) and the clamp still lands in [0,1]; the code divides 0.0 by 0.0
+    there (numba: ZeroDivisionError, numpy: NaN), so the theorem says nothing about the code at s = e: the documented domain
+    (non-degenerate segment, s <> e) is the domain of the claim *)
 Theorem C10_point_to_line_segment (p s e : V3R) d c :
   point_to_line_segment p s e = (d, c) -> feasible (point_set p) (segment_set s e) d p c.
 Proof. exact (point_to_line_segment_feasible p s e d c). Qed.
@@ -100,7 +102,7 @@ Proof. exact point_to_disk_nonvacuous. Qed.
 
 (** point_to_circle: unit normal.  Since /repo 8d1302d d is |p - cp| in both arms, so feasibility only needs the returned
     point to be on the circle: always in the general arm (sqr_len >= eps); in the on-axis arm iff pytransform3d's
-    perpendicular_to_vector is exact for n (n_z = 0 or |n_z| >= machine epsilon) = [circle_feasible_ok] *)
+    perpendicular_to_vector is exact for n: n_z = 0 or |n_z| >= 1e-7 (pytransform3d's eps, [feps]) = [circle_feasible_ok] *)
 Theorem C10_point_to_circle (p c : V3R) (r : R) (n : V3R) (eps : R) d cp :
   dot n n = 1 -> 0 <= r -> 0 < eps -> circle_feasible_ok p c n eps ->
   point_to_circle p c r n eps = (d, cp) -> feasible (point_set p) (circle_set c r n) d p cp.
@@ -117,7 +119,8 @@ Example C10_point_to_circle_in_band_nonvacuous :
     point_to_circle p c r n eps = (d, cp) /\ d = 1999 / 2000 /\ cp = V 1 0 0 /\
     feasible (point_set p) (circle_set c r n) d p cp.
 Proof. exact point_to_circle_band_feasible_example. Qed.
-(** exactly on the axis with 0 < |n_z| < machine epsilon the returned point is off the circle's plane *)
+(** exactly on the axis with 0 < |n_z| < 1e-7 (pytransform3d's eps) the returned point is off the circle's plane by r |n_z|:
+    finding FD8 *)
 Theorem C10_point_to_circle_on_axis_refuted :
   exists p c r n eps d cp,
     dot n n = 1 /\ 0 <= r /\ 0 < eps /\ circle_sqr_len p c n = 0 /\
